@@ -272,6 +272,15 @@ impl PairRun {
             ev.inconclusive("set operation diverges (owned by C05-C07/C20)");
             return true;
         }
+        if let Some((what, msg)) = &obs.proto_bad {
+            if own_sel {
+                self.viol(ev, &format!("{}/{}", opn, what), format!("{}: {}", opn, msg), desc);
+                return false;
+            }
+            ev.count("foreign/pair_iterator_protocol", 1);
+        } else if !op.is_mut() {
+            ev.count("pairs/iterator_protocol_checks", 1);
+        }
         // selection, order, tags, values
         let got: Vec<(Key, Tag)> = obs.items.iter().map(|i| (i.key, i.tag)).collect();
         let mut sel_ok = got == exp;
